@@ -20,6 +20,7 @@
 #include <primesieve/primesieve_error.hpp>
 #include <primesieve/ParallelSieve.hpp>
 #include <primesieve/PrimeSieve.hpp>
+#include <primesieve/CpuInfo.hpp>
 #include <algorithm>
 #include <mutex>
 #include <thread>
@@ -56,6 +57,18 @@ struct primesieve_verif_probe
   static void setSieveIdxDone(primesieve::PrimeGenerator& pg) { pg.sieveIdx_ = pg.sieve_.size(); }
   static uint64_t l1CacheSize() { return primesieve::Erat::getL1CacheSize(); }
   static uint64_t threadDistance(const primesieve::ParallelSieve& ps, int threads) { return ps.getThreadDistance(threads); }
+  // overwrite the cache description of the (const) singleton: the accessors live in another
+  // translation unit, so they re-read the fields on every call
+  static void pokeCpu(uint64_t l1, uint64_t l2, uint64_t s2, uint64_t s3)
+  {
+    auto& c = const_cast<primesieve::CpuInfo&>(primesieve::cpuInfo);
+    c.cacheSizes_[1] = l1; c.cacheSizes_[2] = l2; c.cacheSharing_[2] = s2; c.cacheSharing_[3] = s3;
+  }
+  static void readCpu(uint64_t v[4])
+  {
+    auto& c = primesieve::cpuInfo;
+    v[0] = c.cacheSizes_[1]; v[1] = c.cacheSizes_[2]; v[2] = c.cacheSharing_[2]; v[3] = c.cacheSharing_[3];
+  }
 };
 
 extern uint64_t primesieve_verif_min_thread_distance;
@@ -791,6 +804,70 @@ int streamNth(std::istream& in)
   return 0;
 }
 
+// ---------------------------------------------------------------------------
+// stream "cfg": configuration functions and cache topologies
+//   gss <l1> <l2> <s2> <s3>   poke the cache description, get_sieve_size() (only valid before any `ss`),
+//                             Erat's L1 size, and a small count + iterator run under that topology
+//   ss <x>                    set_sieve_size(x) / PrimeSieve::setSieveSize(x)
+//   nt <x>                    set_num_threads(x) / ParallelSieve::setNumThreads(x)
+// ---------------------------------------------------------------------------
+int streamCfg(std::istream& in)
+{
+  std::string line;
+  uint64_t orig[4];
+  primesieve_verif_probe::readCpu(orig);
+  int cores = primesieve::ParallelSieve::getMaxThreads();
+  bool ssUsed = false;
+  // reference results under the original topology
+  const uint64_t A = 1000000000ull, B = 1000300000ull;
+  uint64_t expC[6];
+  oracleCounts(A, B, expC);
+  while (std::getline(in, line))
+  {
+    auto t = split(line);
+    if (t.empty() || t[0][0] == '#')
+      continue;
+    if (t[0] == "gss" && t.size() >= 5)
+    {
+      if (ssUsed) { std::cerr << "gss after ss\n"; return 2; }
+      primesieve_verif_probe::pokeCpu(u64(t[1]), u64(t[2]), u64(t[3]), u64(t[4]));
+      int v = primesieve::get_sieve_size();
+      uint64_t l1 = primesieve_verif_probe::l1CacheSize();
+      std::cout << line << " => size=" << v << " l1=" << l1;
+      // results must not depend on the topology
+      uint64_t c = primesieve::count_primes(A, B);
+      uint64_t tw = primesieve::count_twins(A, B);
+      primesieve::iterator it(A + 12345);
+      uint64_t p = it.next_prime(), q = it.prev_prime(), r = it.prev_prime();
+      bool ok = c == expC[0] && tw == expC[1] && isPrimeOracle(p) && isPrimeOracle(q) && isPrimeOracle(r) && r < q && q < p && p >= A + 12345;
+      for (uint64_t x = r + 1; x < p && ok; x++) if (x != q && isPrimeOracle(x)) ok = false;
+      for (uint64_t x = A + 12345; x < p && ok; x++) if (isPrimeOracle(x)) ok = false;
+      if (!ok) std::cout << " ORACLE-MISMATCH count=" << c << " twins=" << tw << " expected=" << expC[0] << "," << expC[1] << " iter=" << p << "," << q << "," << r;
+      std::cout << "\n";
+      primesieve_verif_probe::pokeCpu(orig[0], orig[1], orig[2], orig[3]);
+    }
+    else if (t[0] == "ss" && t.size() >= 2)
+    {
+      ssUsed = true;
+      int x = atoi(t[1].c_str());
+      primesieve::set_sieve_size(x);
+      primesieve::PrimeSieve ps;
+      ps.setSieveSize(x);
+      std::cout << line << " => api=" << primesieve::get_sieve_size() << " ps=" << ps.getSieveSize() << "\n";
+    }
+    else if (t[0] == "nt" && t.size() >= 2)
+    {
+      int x = atoi(t[1].c_str());
+      primesieve::set_num_threads(x);
+      primesieve::ParallelSieve ps;
+      ps.setNumThreads(x);
+      std::cout << line << " cores=" << cores << " => api=" << primesieve::get_num_threads() << " ps=" << ps.getNumThreads() << "\n";
+    }
+    else { std::cerr << "bad op: " << line << "\n"; return 2; }
+  }
+  return 0;
+}
+
 } // namespace
 
 int main(int argc, char** argv)
@@ -820,6 +897,8 @@ int main(int argc, char** argv)
     return streamStore(in);
   if (stream == "nth")
     return streamNth(in);
+  if (stream == "cfg")
+    return streamCfg(in);
   std::cerr << "unknown stream " << stream << "\n";
   return 2;
 }
